@@ -116,6 +116,16 @@ def r2_headers(repo, chk):
     chk.ob("R2", "short header: first byte, destination connection ID, packet number", ok, f"reader {[k for k, _ in rs]}, writer {[k for k, _ in ws]}", ep.loc(ep.node))
 
 
+def _field_annotation(mod, cls_ann, field: str):
+    cname = norm(cls_ann) if cls_ann is not None else ""
+    for n in mod.tree.body:
+        if isinstance(n, ast.ClassDef) and n.name == cname:
+            for st in n.body:
+                if isinstance(st, ast.AnnAssign) and isinstance(st.target, ast.Name) and st.target.id == field:
+                    return norm(st.annotation)
+    return None
+
+
 def r2_presence(repo, chk):
     """presence of an optional extension on the wire depends on its own field only (the decoder treats every extension
     as independently optional), and the long-header truncation test compares absolute offsets"""
@@ -134,6 +144,12 @@ def r2_presence(repo, chk):
                     lg = f.lexical_guards(st, expand=False)
                     ok = len(lg) <= 1 and all(msg is not None and a[0].startswith(msg + ".") for a in lg)
                     chk.ob("R2", f"{q}: extension {norm(c.args[1]).split('.')[-1]} is written whenever its own field is set (no other condition)", ok, f"guards {lg}: a value the decoder accepts and the message type can hold is silently dropped by the encoder", f.loc(st))
+                    # "set" means `is not None` for an Optional field: a truth test also drops 0 / empty values the
+                    # decoder returns and the dataclass can hold (truth tests are for bool fields only)
+                    for a in lg:
+                        if a[1] and " " not in a[0] and a[0].startswith(msg + "."):
+                            ann = _field_annotation(m, f.node.args.args[1].annotation, a[0].split(".", 1)[1])
+                            chk.ob("R2", f"{q}: presence of `{a[0]}` is decided by a truth test only because the field is a bool", ann == "bool", f"field annotated `{ann}`: a present-but-falsy value (0, empty) is encoded as absent while the decoder and the message type distinguish the two", f.loc(st))
     if n < 15:
         raise AnalysisError(f"only {n} push_extension blocks found")
     ph = Fn(repo, "quic.packet:pull_quic_header")
@@ -573,18 +589,26 @@ def r4(repo, chk, ref):
         for c in cases:
             label = c[0]
             loads, need = None, None
+            checked = 1  # CHECK_READ_BOUNDS(self, 1) precedes the switch
             for part in c[1:]:
                 for n_ in cq.preorder(part):
+                    if n_.get("kind") == "BinaryOperator" and n_.get("opcode") == ">" and ctext(strip(cq.kids(n_)[1])) == "self->end":
+                        lhs = strip(cq.kids(n_)[0])
+                        if lhs.get("kind") == "BinaryOperator" and lhs.get("opcode") == "+" and ctext(strip(cq.kids(lhs)[0])) == "self->pos":
+                            k_ = cq.ceval(cq.kids(lhs)[1])
+                            if k_ is not None:
+                                checked = max(checked, k_)
                     if n_.get("kind") == "BinaryOperator" and n_.get("opcode") == "=" and ctext(strip(cq.kids(n_)[0])) == "value":
                         loads = _loads(cq.kids(n_)[1], pl)
                     if n_.get("kind") == "CompoundAssignOperator" and n_.get("opcode") == "+=" and ctext(strip(cq.kids(n_)[0])) == "self->pos":
                         need = cq.ceval(cq.kids(n_)[1])
                     if n_.get("kind") == "UnaryOperator" and n_.get("opcode") == "++" and need is None and "self->pos" in ctext(n_):
                         need = 1
-            got[label] = (loads, need)
+            got[label] = (loads, need, checked)
         for idx, ln in enumerate(V["lengths"]):
             label = idx if idx < 3 else "default"
-            loads, adv = got.get(label, (None, None))
+            loads, adv, checked = got.get(label, (None, None, None))
+            chk.ob("R4", f"Buffer.pull_uint_var: prefix {idx} checks that all {ln} byte(s) are available before reading them", checked == ln, f"bounds check for {checked} byte(s): a varint cut off at the end of the buffer is decoded from bytes past the end (garbage value, tell() > capacity) instead of raising BufferReadError", cu.loc(pl))
             want = {k: (8 * (ln - 1 - k), 0x3F if k == 0 else None) for k in range(ln)}
             chk.ob("R4", f"Buffer.pull_uint_var: prefix {idx} reads {ln} byte(s), masks the two prefix bits, big endian", loads == want and adv == ln, f"loads {loads}, advance {adv}", cu.loc(pl))
     sv = Fn(repo, "buffer:size_uint_var")
